@@ -14,7 +14,7 @@
    objects reachable from the empty one by any number of calls are exactly the legacy_of st. *)
 From Coq Require Import ZArith List Bool Lia Arith QArith Qcanon Sorted.
 From Batchie Require Import Lib.Sexp Lib.Num Lib.PyRt Generated.Consts Model.Encode Model.Train Generated.SrcTrain
-  Proofs.PyRtLemmas.
+  Proofs.PyRtLemmas Proofs.C01Sort.
 Import ListNotations.
 Open Scope Z_scope.
 
@@ -309,4 +309,160 @@ Theorem src_sdc_add_is_model : forall orc r32 st rows,
 Proof.
   intros orc r32 st rows. rewrite src_add_observations_is_model. unfold sdc_add, add_observations.
   destruct (forallb t_mask rows); [apply src_sdc_add_observations_is_model | reflexivity].
+Qed.
+
+(* ---------- create_single_treatment_effect_map ---------- *)
+Lemma select_map_map {R A} (p : R -> bool) (f : R -> A) rows : select (map p rows) (map f rows) = map f (filter p rows).
+Proof. now rewrite select_map, select_map_filter. Qed.
+
+Lemma and_vec_map {R} (p q : R -> bool) rows : and_vec (map p rows) (map q rows) = map (fun r => p r && q r) rows.
+Proof. induction rows as [|r rows IH]; cbn [map and_vec]; [reflexivity | now rewrite IH]. Qed.
+
+Lemma existsb_filter {A} (p : A -> bool) l : existsb p l = match filter p l with [] => false | _ :: _ => true end.
+Proof. induction l as [|a l IH]; cbn [existsb filter]; [reflexivity|]. destruct (p a); [reflexivity | exact IH]. Qed.
+
+Lemma dict2_set_fresh {V} (d : list ((Z * Z) * V)) k v :
+  Forall (fun kv => fst kv <> k) d -> dict2_set d k v = d ++ [(k, v)].
+Proof.
+  induction d as [|[k' v'] d IH]; intros H; cbn [dict2_set app]; [reflexivity|].
+  inversion H as [|? ? Hk Hd]; subst. cbn [fst] in Hk.
+  destruct ((fst k' =? fst k) && (snd k' =? snd k)) eqn:E.
+  - exfalso. apply andb_true_iff in E. destruct E as [E1 E2]. apply Z.eqb_eq in E1, E2. apply Hk.
+    destruct k', k; cbn [fst snd] in *; congruence.
+  - now rewrite IH.
+Qed.
+
+(* the inner loop (over the treatment ids) for one sample id s: every (s, t) it stores is new *)
+Lemma sem_inner_loop {V} (ev : Z -> option V) (s : Z) (F : list ((Z * Z) * V) -> Z -> result (list ((Z * Z) * V))) :
+  (forall res t, F res t = Ok (match ev t with Some v => dict2_set res (s, t) v | None => res end)) ->
+  forall ts res, NoDup ts -> Forall (fun kv => fst (fst kv) = s -> ~ In (snd (fst kv)) ts) res ->
+  res_fold F ts res = Ok (res ++ flat_map (fun t => match ev t with Some v => [((s, t), v)] | None => [] end) ts).
+Proof.
+  intros HF ts. induction ts as [|t ts IH]; intros res Hnd Hres; cbn [res_fold flat_map]; [now rewrite app_nil_r|].
+  inversion Hnd as [|? ? Ht Hts]; subst. rewrite HF. cbn [res_bind].
+  destruct (ev t) as [v|]; cbn [app].
+  - rewrite dict2_set_fresh.
+    + rewrite IH; [now rewrite <- app_assoc | exact Hts |].
+      apply Forall_app. split.
+      * eapply Forall_impl; [|exact Hres]. cbn beta. intros kv H E Hin. apply (H E). now right.
+      * constructor; [|constructor]. cbn [fst snd]. intros _. exact Ht.
+    + eapply Forall_impl; [|exact Hres]. cbn beta. intros [[a b] w] H E. cbn [fst snd] in *. inversion E; subst.
+      apply H; [reflexivity | now left].
+  - apply IH; [exact Hts|]. eapply Forall_impl; [|exact Hres]. cbn beta. intros kv H E Hin. apply (H E). now right.
+Qed.
+
+(* the outer loop (over the sample ids) *)
+Lemma sem_outer_loop {V} (row : Z -> list ((Z * Z) * V)) (F : list ((Z * Z) * V) -> Z -> result (list ((Z * Z) * V))) :
+  (forall s, Forall (fun kv => fst (fst kv) = s) (row s)) ->
+  (forall res s, Forall (fun kv => fst (fst kv) <> s) res -> F res s = Ok (res ++ row s)) ->
+  forall ss res, NoDup ss -> Forall (fun kv => ~ In (fst (fst kv)) ss) res ->
+  res_fold F ss res = Ok (res ++ flat_map row ss).
+Proof.
+  intros Hrow HF ss. induction ss as [|s ss IH]; intros res Hnd Hres; cbn [res_fold flat_map]; [now rewrite app_nil_r|].
+  inversion Hnd as [|? ? Hs Hss]; subst. rewrite HF.
+  - cbn [res_bind]. rewrite IH; [now rewrite <- app_assoc | exact Hss |].
+    apply Forall_app. split.
+    + eapply Forall_impl; [|exact Hres]. cbn beta. intros kv H Hin. apply H. now right.
+    + eapply Forall_impl; [|apply Hrow]. cbn beta. intros kv -> . exact Hs.
+  - eapply Forall_impl; [|exact Hres]. cbn beta. intros kv H E. apply H. now left.
+Qed.
+
+(* the value stored for (s, t), if any *)
+Definition sem_val (arity : nat) (rows : list trow) (s t : Z) : option oval :=
+  if t =? CONTROL_SENTINEL_VALUE then Some oone
+  else match filter (single_matches s t) (filter (is_single arity) rows) with
+       | [] => None
+       | m => Some (omean (map t_obs m))
+       end.
+Definition sem_row (arity : nat) (rows : list trow) (s : Z) : lookup :=
+  flat_map (fun t => match sem_val arity rows s t with Some v => [((s, t), v)] | None => [] end)
+           (sort_uniq Z.compare (concat (map t_treats rows))).
+
+Lemma single_effect_map_rows arity rows :
+  single_effect_map arity rows = flat_map (sem_row arity rows) (sort_uniq Z.compare (map t_sample rows)).
+Proof.
+  unfold single_effect_map, sem_row. cbv zeta. apply flat_map_ext. intros s. apply flat_map_ext. intros t.
+  unfold sem_val. destruct (t =? CONTROL_SENTINEL_VALUE); [reflexivity|].
+  destruct (filter (single_matches s t) (filter (is_single arity) rows)); reflexivity.
+Qed.
+
+Lemma single_mask_eq arity rows : (2 <= arity)%nat ->
+  eq_vec (ctrl_counts (map t_treats rows)) (Z.of_nat arity - 1) = map (is_single arity) rows.
+Proof.
+  intros Ha. unfold eq_vec, ctrl_counts. rewrite !map_map. apply map_ext. intros r. unfold is_single.
+  destruct (Nat.eqb_spec (count_ctrl (t_treats r)) (arity - 1)) as [E|E]; [apply Z.eqb_eq | apply Z.eqb_neq]; lia.
+Qed.
+
+Theorem src_single_effect_map_is_model : forall (arity : nat) (rows : list trow),
+  src_create_single_treatment_effect_map oval oone omean arity (map t_sample rows) (map t_treats rows) (map t_obs rows)
+  = if Z.of_nat arity <? 2 then Err 4 else Ok (single_effect_map arity rows).
+Proof.
+  intros arity rows. unfold src_create_single_treatment_effect_map.
+  destruct (Z.of_nat arity <? 2) eqn:Ea; [reflexivity|]. apply Z.ltb_ge in Ea.
+  cbv zeta. rewrite single_mask_eq by lia. rewrite !select_map_map.
+  set (singles := filter (is_single arity) rows).
+  rewrite (sem_outer_loop (sem_row arity rows)).
+  - cbn [res_bind app]. now rewrite single_effect_map_rows.
+  - intros s. unfold sem_row. apply Forall_forall. intros kv Hkv. apply in_flat_map in Hkv. destruct Hkv as (t & _ & Hkv).
+    destruct (sem_val arity rows s t); [|contradiction]. destruct Hkv as [<-|[]]. reflexivity.
+  - intros res s Hres.
+    rewrite (sem_inner_loop (sem_val arity rows s) s).
+    + reflexivity.
+    + intros res' t. unfold sem_val. fold singles. destruct (t =? CONTROL_SENTINEL_VALUE); [reflexivity|].
+      unfold row_maxima, eq_vec. rewrite !map_map, and_vec_map, any_true_map, select_map_map.
+      change (fun r : trow => (zmax_list (t_treats r) =? t) && (t_sample r =? s)) with (single_matches s t).
+      rewrite existsb_filter. destruct (filter (single_matches s t) singles); reflexivity.
+    + apply (sort_uniq_NoDup Z.compare Zcmp_spec).
+    + eapply Forall_impl; [|exact Hres]. cbn beta. intros kv H E. contradiction.
+  - apply (sort_uniq_NoDup Z.compare Zcmp_spec).
+  - constructor.
+Qed.
+
+(* ---------- SparseDrugComboInteraction._add_observations ---------- *)
+Lemma combo_mask_eq arity rows : eq_vec (ctrl_counts (map t_treats rows)) 0 = map (combo_sel true arity) rows.
+Proof.
+  unfold eq_vec, ctrl_counts. rewrite !map_map. apply map_ext. intros r. unfold combo_sel.
+  destruct (Nat.eqb_spec (count_ctrl (t_treats r)) 0) as [E|E]; [apply Z.eqb_eq | apply Z.eqb_neq]; lia.
+Qed.
+
+Lemma int_loop orc r32 (F : legacy -> oval * Z * Z * Z * bool -> result legacy) :
+  (forall w y d1 d2 cl (m : bool), F w (y, d1, d2, cl, m)
+     = dor w' <- (if m then dor w'' <- src_legacy_int_update w y cl d1 d2; Ok w'' else Ok w); Ok w') ->
+  forall rows st,
+  res_fold F (map (fun r => (int_transform orc r32 (t_obs r), nth 0 (t_treats r) 0, nth 1 (t_treats r) 0, t_sample r, t_mask r)) rows)
+           (legacy_of st)
+  = Ok (legacy_of (st ++ map (int_trip orc r32) (filter t_mask rows))).
+Proof.
+  intros HF rows. induction rows as [|r rows IH]; intros st; cbn [map res_fold filter]; [now rewrite app_nil_r|].
+  rewrite HF. destruct (t_mask r); cbn [res_bind]; [|apply IH].
+  rewrite src_legacy_int_update_is_model. cbn [res_bind map]. rewrite IH, <- app_assoc. reflexivity.
+Qed.
+
+Theorem src_int_add_observations_is_model : forall orc r32 (arity : nat) (st : istate) (rows : list trow),
+  src_int_add_observations orc r32 arity (i_lookup st) (legacy_of (i_train st)) rows
+  = dor s <- int_inner orc r32 true true true st arity rows; Ok (i_lookup s, legacy_of (i_train s)).
+Proof.
+  intros orc r32 arity st rows. unfold src_int_add_observations, int_inner.
+  destruct (Nat.eqb_spec arity 2) as [->|Hne]; cbn [negb].
+  2:{ destruct (Z.eqb_spec (Z.of_nat arity) 2) as [E|_]; [lia | reflexivity]. }
+  change (Z.of_nat 2 =? 2) with true. cbn [negb andb].
+  rewrite map_map, all_true_map. destruct (forallb (fun r => o_nonneg (t_obs r)) rows); cbn [negb]; [|reflexivity].
+  rewrite src_single_effect_map_is_model. change (Z.of_nat 2 <? 2) with false. cbn [res_bind]. cbv zeta.
+  rewrite (combo_mask_eq 2), !select_map_map. unfold column. rewrite !map_map, any_true_map.
+  set (sel := filter (combo_sel true 2) rows).
+  change (fun x : trow => o_isnan (ologit orc (cast32 r32 (t_obs x)))) with (fun r : trow => o_isnan (int_transform orc r32 (t_obs r))).
+  destruct (existsb (fun r => o_isnan (int_transform orc r32 (t_obs r))) sel); [reflexivity|].
+  change (fun x : trow => ologit orc (cast32 r32 (t_obs x))) with (fun r : trow => int_transform orc r32 (t_obs r)).
+  rewrite zip5_map, (int_loop orc r32) by (intros; reflexivity). reflexivity.
+Qed.
+
+(* the public entry point on a SparseDrugComboInteraction *)
+Theorem src_int_add_is_model : forall orc r32 arity st rows,
+  src_add_observations (lookup * legacy)
+    (fun self d => src_int_add_observations orc r32 arity (fst self) (snd self) d)
+    (i_lookup st, legacy_of (i_train st)) rows
+  = dor s <- int_add orc r32 true true true st arity rows; Ok (i_lookup s, legacy_of (i_train s)).
+Proof.
+  intros orc r32 arity st rows. rewrite src_add_observations_is_model. unfold int_add, add_observations. cbn [fst snd].
+  destruct (forallb t_mask rows); [apply src_int_add_observations_is_model | reflexivity].
 Qed.
